@@ -158,6 +158,44 @@ Section Timing.
     match get_attr attrs A_timeContainer with Some v => text_eqb v V_seq | None => false end.
 
   (* ---- 3. begin and end of x relative to the begin of its parent ---------------------- *)
+  Definition timed (c : xml) : bool := match s_kind (x_tag c) (x_attrs c) with Some _ => true | None => false end.
+
+  Section Durations.
+    (* [iv pseq sync c]: the interval of a child; implicit durations of the two kinds of time container *)
+    Variable iv : bool -> Q -> xml -> Q * option Q.
+
+    (* seq: the children play one after the other; the duration is the end of the last one, indefinite as soon
+       as one child is indefinite (character content has zero duration in a seq container) *)
+    Fixpoint seq_dur (l : list xml) (cursor : Q) : option Q :=
+      match l with
+      | [] => Some cursor
+      | c :: l' =>
+          if timed c then
+            match snd (iv true cursor c) with
+            | Some ce => seq_dur l' ce
+            | None => None
+            end
+          else seq_dur l' cursor
+      end.
+
+    (* par: the latest end of the children; an anonymous span ([mixed] and character content) is indefinite *)
+    Fixpoint par_dur (mixed : bool) (l : list xml) (acc : option Q) : option Q :=
+      match l with
+      | [] => acc
+      | c :: l' =>
+          let acc1 := if timed c then omax acc (snd (iv false 0%Q c)) else acc in
+          par_dur mixed l' (if mixed && has_text (x_tail c) then None else acc1)
+      end.
+  End Durations.
+
+  Definition end_of (sync b : Q) (dur end_ : option Q) (idur : option Q) : option Q :=
+    match dur, end_ with
+    | Some d, Some e_ => Some (Qmin (b + d) (sync + e_))%Q
+    | Some d, None => Some (b + d)%Q
+    | None, Some e_ => Some (sync + e_)%Q
+    | None, None => oadd b idur
+    end.
+
   Fixpoint interval (pseq : bool) (sync : Q) (x : xml) {struct x} : Q * option Q :=
     match x with
     | X tag attrs txt tail cs =>
@@ -168,39 +206,10 @@ Section Timing.
         | None => Some 0%Q
         | Some k =>
           if s_atomic k && negb pseq then None else
-          if s_is_seq attrs then
-            (fix seq_dur (l : list xml) (cursor : Q) : option Q :=
-               match l with
-               | [] => Some cursor
-               | c :: l' =>
-                   match s_kind (x_tag c) (x_attrs c) with
-                   | None => seq_dur l' cursor
-                   | Some _ => match snd (interval true cursor c) with
-                               | Some ce => seq_dur l' ce
-                               | None => None
-                               end
-                   end
-               end) cs 0%Q
-          else
-            (fix par_dur (l : list xml) (acc : option Q) : option Q :=
-               match l with
-               | [] => acc
-               | c :: l' =>
-                   let acc1 := match s_kind (x_tag c) (x_attrs c) with
-                               | None => acc
-                               | Some _ => omax acc (snd (interval false 0%Q c))
-                               end in
-                   par_dur l' (if s_mixed k && has_text (x_tail c) then None else acc1)
-               end) cs (if s_mixed k && has_text txt then None else Some 0%Q)
+          if s_is_seq attrs then seq_dur interval cs 0%Q
+          else par_dur interval (s_mixed k) cs (if s_mixed k && has_text txt then None else Some 0%Q)
         end in
-      let e :=
-        match tattr attrs A_dur, tattr attrs A_end with
-        | Some d, Some e_ => Some (Qmin (b + d) (sync + e_))%Q
-        | Some d, None => Some (b + d)%Q
-        | None, Some e_ => Some (sync + e_)%Q
-        | None, None => oadd b idur
-        end in
-      (b, e)
+      (b, end_of sync b (tattr attrs A_dur) (tattr attrs A_end) idur)
     end.
 
   (* ---- 4. presented character content at time t -------------------------------------------- *)
